@@ -15,7 +15,7 @@ import json
 from typing import Any
 
 import gallia.services.uds.server as srvmod
-from gallia.services.uds.core.exception import MissingResponse, UDSException
+from gallia.services.uds.core.exception import MissingResponse, RequestResponseMismatch, UDSException
 from gallia.services.uds.core import service
 from gallia.services.uds.ecu import ECU
 from gallia.services.uds.server import RandomUDSServer, UDSServerTransport
@@ -55,7 +55,7 @@ def run_case(ch: Any, seed: int, retries: int) -> dict[str, Any]:
             ans, _ = await st.handle_request(req)
             sysev.append({"e": "Srv", "i": i, "req": list(req), "ans": list(ans or b""), "has": ans is not None})
             disturb()                       # between acknowledgement and answer
-            mode = ch.choose(3)             # 0 deliver at once, 1 deliver after 300 ms, 2 withhold
+            mode = ch.choose(4)             # 0 deliver at once, 1 after 300 ms, 2 withhold, 3 after 1.2 s (too late)
             if ans is None:
                 return
             if mode == 2:
@@ -63,6 +63,9 @@ def run_case(ch: Any, seed: int, retries: int) -> dict[str, Any]:
                 return
             if mode == 1:
                 await asyncio.sleep(0.3)
+            if mode == 3:
+                sysev.append({"e": "Late", "i": i})
+                await asyncio.sleep(1.2)
             if gw.wire is not None and not gw.wire.writer.is_closing():
                 gw.feed({"k": "Diag", "src": TGT, "dst": SRC, "d": list(ans)})
             disturb()                       # after the answer
@@ -110,6 +113,8 @@ def run_case(ch: Any, seed: int, retries: int) -> dict[str, Any]:
                     sysev.append({"e": "Ret", "i": i, "kind": "Reply", "pdu": list(resp.pdu)})
                 except MissingResponse:
                     sysev.append({"e": "Ret", "i": i, "kind": "Missing", "pdu": []})
+                except RequestResponseMismatch:
+                    sysev.append({"e": "Ret", "i": i, "kind": "Mismatch", "pdu": []})
                 except (UDSException, Exception) as e:  # noqa: BLE001
                     sysev.append({"e": "Ret", "i": i, "kind": "Other", "pdu": [], "exc": repr(e)[:120]})
                 await settle()
